@@ -23,7 +23,7 @@ def run_enum(prop, tier, legs, rule, nontrivial_counter, level="model_checking",
         args = ["--tier", tier] + list(leg.get("args", []))
         if leg.get("leakcheck"):
             args.append("--leakcheck")
-        r = vp.run_shards(exe, args, timeout=timeout or (3600 if tier == "thorough" else 900), extra_env=leg.get("env"))
+        r = vp.run_shards(exe, args, timeout=timeout or (3600 if tier == "thorough" else 900), extra_env=leg.get("env"), wrapper=leg.get("wrapper"))
         for f in r.failures:
             f["leg"] = leg["name"]
             f["extra"] = {"leg": leg["name"], "tier": tier, "variant": leg["variant"]}
@@ -38,7 +38,7 @@ def run_enum(prop, tier, legs, rule, nontrivial_counter, level="model_checking",
                 args = ["--tier", tier] + list(leg.get("args", []))
                 if leg.get("leakcheck"):
                     args.append("--leakcheck")
-                rr = vp.run_single(exes[leg["name"]], args, case_id)
+                rr = vp.run_single(exes[leg["name"]], args, case_id, wrapper=leg.get("wrapper"))
                 sigs += [f["sig"] for f in rr.failures]
         return sigs
 
@@ -92,7 +92,7 @@ def replay_enum(prop, path, legs):
         args = ["--tier", tier] + list(leg.get("args", []))
         if leg.get("leakcheck"):
             args.append("--leakcheck")
-        r = vp.run_single(exe, args, rec["case_id"])
+        r = vp.run_single(exe, args, rec["case_id"], wrapper=leg.get("wrapper"))
         for s in r.samples:
             print("case: " + s)
         for f in r.failures:
